@@ -386,7 +386,7 @@ pub fn check(ctx: &Ctx) -> Check {
         Box::new(RandomPart {
             name: "histories",
             rule: "random call histories (next/len/size_hint/clone) on view::Iter, AxisIter, IndicesIter, FrequenciesIter over random shapes (1..5 axes, lengths 1..6), interpreted against the expected item list; non-trivial = >=2 calls of next() after exhaustion; distinct by (shape, iterator, history)",
-            cases: ctx.tier.pick(100_000, 2_000_000),
+            cases: ctx.tier.pick(100_000, 10_000_000),
             strategy: Box::new(|| history_strategy(6).boxed()),
             eval: Box::new(eval_history),
         }),
